@@ -925,6 +925,14 @@ pub fn generate_r(stream: &str, seed: u64, n: usize, emit: &mut dyn FnMut(String
 							v.push(("flip".to_string(), f));
 						}
 					}
+					// cuts inside the block's data: every value kind has its own read path and its own
+					// conversion of "the input ended here" into an error
+					if data_end > data_off + 1 {
+						for _ in 0..8 {
+							let at = rng.gen_range(data_off + 1..data_end);
+							v.push(("trunc".to_string(), file[..at].to_vec()));
+						}
+					}
 					let mut cuts = vec![count_off, size_off, data_off, data_end, data_end + 1, data_end + 15];
 					for o in size_off + 1..data_off {
 						cuts.push(o);
